@@ -45,13 +45,10 @@ build() {
       # run as a subprocess for a sample of the compilations (config loading, flag parsing, file I/O)
       for f in "$REPO"/*.go; do case "$f" in *_test.go) ;; *) [ -f "$f" ] && cp "$f" "$scratch/plain/";; esac; done
     fi
-    for d in "$REPO"/*/; do
-      dn="$(basename "$d")"
-      ls "$d"*.go >/dev/null 2>&1 || continue
-      mkdir -p "$scratch/$kind/$dn"
-      for f in "$d"*.go; do
-        case "$f" in *_test.go) ;; *) cp "$f" "$scratch/$kind/$dn/";; esac
-      done
+    # every package directory of the module, at any depth (internal/..., nested packages)
+    (cd "$REPO" && find . -mindepth 2 -name '*.go' ! -name '*_test.go' ! -path './.*' ! -path '*/testdata/*' ! -path './vendor/*' -print) | while read -r f; do
+      mkdir -p "$scratch/$kind/$(dirname "$f")"
+      cp "$REPO/$f" "$scratch/$kind/$f"
     done
   done
   "$VERIF/bin/instrument" -src "$scratch/inst" -hook "$VERIF/sim/simhook_src/simhook.go" -report "$scratch/instrument.json" || infra "instrumenter failed (working tree does not parse / type-check)"
